@@ -23,7 +23,7 @@
    ragged matrix is read as if padded with zeros; the lemmas `det*_leading` show that det and
    leading read exactly the entries mat_get m i j (i, j < n), hence no well-shapedness
    hypothesis is needed. *)
-From Coq Require Import Psatz.
+From Coq Require Import ZArith Lia.
 From Geff Require Import Base GraphVal.
 Open Scope Z_scope.
 Open Scope list_scope.
